@@ -89,13 +89,14 @@ structure Base where
 structure DataOk (b : Base) (I : Array Instr) (J : Array Nat) (C : Array (Val F)) (M : Array (Option Nat)) : Prop where
   operands : AllFrom b.i0 I (fun i => instrOk J.size C i = true)
   exprConsts : AllFrom b.c0 C (fun v => constOk J.size v = true)
-  metaCount : M.size = I.size
+  metaCount : M.size + b.i0 = I.size + b.m0
   metaNodes : AllFrom b.m0 M (fun m => metaOk b.n m = true)
 
 theorem DataOk.pushI {b : Base} {I : Array Instr} {J : Array Nat} {C : Array (Val F)} {M : Array (Option Nat)}
     (h : DataOk b I J C M) {x : Instr} {m : Option Nat} (hx : instrOk J.size C x = true) (hm : metaOk b.n m = true) :
     DataOk b (I.push x) J C (M.push m) :=
-  ⟨allFrom_push h.operands hx, h.exprConsts, by simp [h.metaCount], allFrom_push h.metaNodes hm⟩
+  ⟨allFrom_push h.operands hx, h.exprConsts, by have := h.metaCount; simp only [Array.size_push]; omega,
+   allFrom_push h.metaNodes hm⟩
 
 theorem DataOk.pushJ {b : Base} {I : Array Instr} {J : Array Nat} {C : Array (Val F)} {M : Array (Option Nat)}
     (h : DataOk b I J C M) (v : Nat) : DataOk b I (J.push v) C M :=
@@ -951,8 +952,10 @@ theorem allFrom_of_size_le {α : Type} {lo : Nat} {a : Array α} {P : α → Pro
 /-- the sizes of the start state and the number of parse nodes -/
 def baseOf (s0 : BState F) (n : Nat) : Base := ⟨s0.instrs.size, s0.consts.size, s0.jumps.size, s0.metadata.size, n⟩
 
-theorem buildCore_wf (fuel parseRoot : Nat) (parseTree : Array ParseNode) (s0 : BState F) (hs0 : WFState s0) :
-    Sat (fun r => WFCore parseTree.size s0 r.1 ∧ r.2 < r.1.jumps.size ∧ EndsInTerm r.1) (buildCore parseFloat fuel parseRoot parseTree s0) := by
+theorem buildCore_wf (fuel parseRoot : Nat) (parseTree : Array ParseNode) (s0 : BState F) :
+    Sat (fun r => (WFState s0 → WFCore parseTree.size s0 r.1) ∧ r.2 < r.1.jumps.size ∧ EndsInTerm r.1 ∧
+      r.1.metadata.size + s0.instrs.size = r.1.instrs.size + s0.metadata.size)
+      (buildCore parseFloat fuel parseRoot parseTree s0) := by
   unfold buildCore
   dsimp only
   unfold setNodeIdx
@@ -963,7 +966,7 @@ theorem buildCore_wf (fuel parseRoot : Nat) (parseTree : Array ParseNode) (s0 : 
     have hinv : InvR (baseOf s0 parseTree.size)
         ({ data := s0, nodes := (Array.replicate parseTree.size none).set parseRoot
             (some (BuildNode.new parseRoot (getJumpTableLen s0))) hlt, rootStack := #[parseRoot], stack := #[] } : Ctx F) := by
-      refine ⟨⟨allFrom_of_size_le (Nat.le_refl _), allFrom_of_size_le (Nat.le_refl _), hs0, allFrom_of_size_le (Nat.le_refl _)⟩,
+      refine ⟨⟨allFrom_of_size_le (Nat.le_refl _), allFrom_of_size_le (Nat.le_refl _), Nat.add_comm _ _, allFrom_of_size_le (Nat.le_refl _)⟩,
         allFrom_of_size_le (Nat.le_refl _), ⟨by simp [baseOf], ?_⟩, Or.inr ⟨parseRoot, BuildNode.new parseRoot (getJumpTableLen s0), by simp, by simp [hlt'], rfl⟩, Nat.le_refl _,
         Or.inr ⟨parseRoot, by simp⟩⟩
       intro i bn hi
@@ -985,7 +988,8 @@ theorem buildCore_wf (fuel parseRoot : Nat) (parseTree : Array ParseNode) (s0 : 
         rcases hR.term with h1 | ⟨r, h1⟩
         · exact h1
         · rw [hnone] at h1; cases h1
-      refine ⟨⟨hR.data.operands, hR.data.exprConsts, ?_, hR.data.metaCount, hR.data.metaNodes⟩, hj0, hterm⟩
+      have hmc : ctx.data.metadata.size + s0.instrs.size = ctx.data.instrs.size + s0.metadata.size := hR.data.metaCount
+      refine ⟨fun hs0 => ⟨hR.data.operands, hR.data.exprConsts, ?_, by unfold WFState at hs0; omega, hR.data.metaNodes⟩, hj0, hterm, hmc⟩
       intro i v hlo hv
       obtain ⟨h1, h2⟩ := hR.jok i v hlo hv
       rcases Nat.lt_or_ge v ctx.data.instrs.size with h3 | h3
@@ -995,18 +999,20 @@ theorem buildCore_wf (fuel parseRoot : Nat) (parseTree : Array ParseNode) (s0 : 
     · exact sat_buildErr
   · exact sat_panic
 
-theorem build_wfCore (fuel parseRoot : Nat) (parseTree : Array ParseNode) (s0 : BState F) (hs0 : WFState s0) :
-    Sat (fun r => WFCore parseTree.size s0 r.1 ∧ (parseTree.size ≠ 0 → r.2 < r.1.jumps.size) ∧ EndsInTerm r.1)
+theorem build_wfCore (fuel parseRoot : Nat) (parseTree : Array ParseNode) (s0 : BState F) :
+    Sat (fun r => (WFState s0 → WFCore parseTree.size s0 r.1) ∧ (parseTree.size ≠ 0 → r.2 < r.1.jumps.size) ∧ EndsInTerm r.1 ∧
+      r.1.metadata.size + s0.instrs.size = r.1.instrs.size + s0.metadata.size)
       (build parseFloat fuel parseRoot parseTree s0) := by
   unfold build
   split
   · rename_i hempty
     simp only [sat_ok, pushInstr, pushToJumpTable, getInstructionLen, getJumpTableLen]
-    refine ⟨⟨allFrom_push (allFrom_of_size_le (Nat.le_refl _)) (by simp [instrOk, opKind]), allFrom_of_size_le (Nat.le_refl _),
+    refine ⟨fun hs0 => ⟨allFrom_push (allFrom_of_size_le (Nat.le_refl _)) (by simp [instrOk, opKind]), allFrom_of_size_le (Nat.le_refl _),
       allFrom_push (allFrom_of_size_le (Nat.le_refl _)) (by simp), by simp [show s0.metadata.size = s0.instrs.size from hs0],
-      allFrom_push (allFrom_of_size_le (Nat.le_refl _)) rfl⟩, fun _ => by simp, ⟨(.endExpression, none), by simp, rfl⟩⟩
+      allFrom_push (allFrom_of_size_le (Nat.le_refl _)) rfl⟩, fun _ => by simp, ⟨(.endExpression, none), by simp, rfl⟩,
+      by simp only [Array.size_push]; omega⟩
   · refine sat_bind (Q := fun _ => True) sat_true (fun _ _ => ?_)
-    exact sat_mono (buildCore_wf parseFloat fuel parseRoot parseTree s0 hs0) (fun r hr => ⟨hr.1, fun _ => hr.2.1, hr.2.2⟩)
+    exact sat_mono (buildCore_wf parseFloat fuel parseRoot parseTree s0) (fun r hr => ⟨hr.1, fun _ => hr.2.1, hr.2.2⟩)
 
 end handlersWF
 
@@ -1025,10 +1031,10 @@ jump entry unless the node vector is empty (`build` then returns entry 0 without
 theorem C05_build_wf (parseFloat : List Char → Option F) (fuel root : Nat) (tree : Array ParseNode) (s0 s : BState F)
     (entry : Nat) (h : build parseFloat fuel root tree s0 = .ok (s, entry)) (hs0 : WFState s0) :
     wfProg tree.size s0 s = true ∧ (tree.size ≠ 0 → entry < s.jumps.size) := by
-  have := build_wfCore parseFloat fuel root tree s0 hs0
+  have := build_wfCore parseFloat fuel root tree s0
   rw [h] at this
-  obtain ⟨h1, h2, h3⟩ := this
-  exact ⟨(wfProg_iff _ _ _).2 ⟨h1, h3⟩, h2⟩
+  obtain ⟨h1, h2, h3, _⟩ := this
+  exact ⟨(wfProg_iff _ _ _).2 ⟨h1 hs0, h3⟩, h2⟩
 
 /-- the declarative form -/
 theorem C05_build_WFProg (parseFloat : List Char → Option F) (fuel root : Nat) (tree : Array ParseNode) (s0 s : BState F)
@@ -1040,6 +1046,25 @@ theorem C05_build_WFProg (parseFloat : List Char → Option F) (fuel root : Nat)
 theorem C05_wfState_preserved (parseFloat : List Char → Option F) (fuel root : Nat) (tree : Array ParseNode) (s0 s : BState F)
     (entry : Nat) (h : build parseFloat fuel root tree s0 = .ok (s, entry)) (hs0 : WFState s0) : WFState s :=
   (C05_build_WFProg parseFloat fuel root tree s0 s entry h hs0).metaCount
+
+/-- "There is exactly one metadata record per emitted instruction": the number of metadata records appended by an accepted
+build equals the number of instructions it appended — for EVERY start state (no `WFState` needed; with `WFState s0` this
+is also the `metaCount` clause of `wfProg`: `s.metadata.size = s.instrs.size`).  A handler that pushes two
+instructions and one record (or the reverse) breaks this theorem. -/
+theorem C05_metadata_one_per_instruction (parseFloat : List Char → Option F) (fuel root : Nat) (tree : Array ParseNode)
+    (s0 s : BState F) (entry : Nat) (h : build parseFloat fuel root tree s0 = .ok (s, entry)) :
+    s.metadata.size - s0.metadata.size = s.instrs.size - s0.instrs.size ∧
+    s0.metadata.size ≤ s.metadata.size ∧ s0.instrs.size ≤ s.instrs.size := by
+  have := build_wfCore parseFloat fuel root tree s0
+  rw [h] at this
+  obtain ⟨_, _, _, h4⟩ := this
+  have hap := Garnish.Lemmas.Build.build_appends_only parseFloat fuel root tree s0 s entry h
+  obtain ⟨⟨l1, h1⟩, _, ⟨l3, h3⟩, _, _⟩ := hap
+  have e1 := congrArg List.length h1
+  have e3 := congrArg List.length h3
+  simp only [List.length_append, Array.length_toList] at e1 e3
+  dsimp only at h4
+  omega
 
 /-- the remaining gap, for the record: with an EMPTY node vector `build` returns `jump_index = 0` without creating a
 jump entry, so `entry < s.jumps.size` can fail (first program) or name another program's entry (shared object) -/
